@@ -428,6 +428,37 @@ def mclass(m):
     return b"GET" if m == b"HEAD" else m
 
 
+STACK_BUF = 128
+
+
+def heap_needs(sem, rawlen):
+    """V6 (allocation failure).  The check unquotes into a 128-byte stack buffer and asks malloc for anything larger:
+    every value sent with quoted pairs needs its length as sent, the uri always needs its length as sent plus one,
+    the user name in extended notation needs its length as sent minus 6.  Returns (needs before the nonce-table
+    test, needs after it): names of the parameters of this header whose request exceeds the stack buffer.
+    With malloc failing, a credential that is valid and has such a need must be answered ERROR (deprecated
+    functions: NO), never OK; a need before the table test leaves the count unconsumed; without any need the answer
+    must be what it is when malloc works."""
+    esc = rawlen.get("esc", set())
+    qop = sem.get(b"qop") is not None
+    uh = (sem.get(b"userhash") or b"").lower() == b"true"
+    big = lambda k: k in esc and rawlen.get(k, 0) > STACK_BUF
+    pre, post = [], []
+    if sem.get(b"username") is None and sem.get(b"username*") is not None and not uh and rawlen.get(b"username*", 0) - 6 > STACK_BUF:
+        pre.append("username*")
+    if qop and big(b"nc"):
+        pre.append("nc")
+    if big(b"nonce"):
+        pre.append("nonce")
+    if rawlen.get(b"uri", 0) + 1 > STACK_BUF:
+        post.append("uri")
+    if big(b"response"):
+        post.append("response")
+    if qop:
+        post += [k.decode() for k in (b"cnonce", b"qop") if big(k)]
+    return pre, post
+
+
 NONCE_CLASSES = ("NONCE_STALE", "NONCE_WRONG", "NONCE_OTHER_COND")
 
 
@@ -512,10 +543,13 @@ def rnd_case(rng, name):
 TOKEN_PREF = {b"algorithm": 0.8, b"qop": 0.7, b"nc": 0.8, b"userhash": 0.8, b"username*": 0.95}
 
 
-def render(rng, sem, style=None):
+def render(rng, sem, style=None, force=None):
     """one rendering of the semantic parameters (RFC 7235 #auth-param): order, letter case of names,
     optional white space, token or quoted-string, arbitrary quoted-pairs, extension parameters and empty
-    list elements.  Returns (header value, {name: length of the value as sent without the DQUOTEs})."""
+    list elements.  Returns (header value, {name: length of the value as sent without the DQUOTEs}); the
+    dict also has the entry "esc": the set of names whose value as sent contains a quoted pair.
+    `force` = {name: "esc1" (quoted, exactly the first byte escaped) | "escall" (quoted, every byte escaped)}."""
+    force = force or {}
     style = style or rng.choice(["canon", "canon", "wild", "wild", "esc"])
     names = list(sem.keys())
     if style != "canon":
@@ -544,7 +578,12 @@ def render(rng, sem, style=None):
             as_token = nm in TOKEN_PREF and tokenable
         else:
             as_token = tokenable and rng.random() < TOKEN_PREF.get(nm, 0.15)
-        if as_token:
+        if force.get(nm) in ("esc1", "escall") and len(v) > 0:
+            as_token = False
+            body = b'"' + (b"".join(b"\\" + bytes([c]) for c in v) if force[nm] == "escall"
+                           else b"\\" + b"".join((b"\\" if c in (0x22, 0x5c) else b"") + bytes([c]) for c in v)[(1 if v[0] in (0x22, 0x5c) else 0):]) + b'"'
+            rl = len(body) - 2
+        elif as_token:
             body, rl = v, len(v)
         else:
             ex = 0.0 if style != "esc" else rng.choice([0.1, 0.5, 1.0])
@@ -553,6 +592,8 @@ def render(rng, sem, style=None):
             body = quote_value(rng, v, ex)
             rl = len(body) - 2
         rawlen[nm] = rl
+        if not as_token and b"\\" in body:
+            rawlen.setdefault("esc", set()).add(nm)
         out += (nm if style == "canon" else rnd_case(rng, nm)) + rnd_ws(rng, wsp) + b"=" + rnd_ws(rng, wsp) + body + rnd_ws(rng, wsp)
     return bytes(out).rstrip(b" \t"), rawlen
 
@@ -618,6 +659,9 @@ class Session:
         self.emit("conn " + hx(addr), kind="conn", addr=addr)
         # the protected resource and the account
         path, args = rnd_components(rng)
+        long_path = rng.random() < 0.12
+        if long_path:                                    # the uri copy then needs more than the 128-byte stack buffer
+            path = path.rstrip(b"/") + b"/" + rnd_bytes(rng, SAFE, 110, 300)
         method = rng.choice(METHODS)
         target = spell_target(rng, path, args)
         user = rnd_bytes(rng, TEXT, 0 if rng.random() < 0.05 else 1, 10)
@@ -630,7 +674,8 @@ class Session:
         self.emit(self.req_line(imethod, target, None, "issue %d %s" % (ALGOS.index(algo), hx(realm))),
                   kind="issue", algo=algo, realm=realm, req=req0)
         self.st = {"cfg": cfg, "now": now, "addr": addr, "path": path, "args": args, "method": method, "target": target,
-                   "user": user, "realm": realm, "pw": pw, "algo": algo, "nonce": None, "nc": 0, "strict": strict}
+                   "user": user, "realm": realm, "pw": pw, "algo": algo, "nonce": None, "nc": 0, "strict": strict,
+                   "long_path": long_path}
         return self
 
     def plan_rest(self, nonce):
@@ -645,12 +690,17 @@ class Session:
         st["qop"] = qop
         st["notation"] = rng.choice(["plain", "plain", "userhash", "ext"])
         n_valid = 0
+        do_alloc = rng.random() < (0.8 if st["long_path"] else 0.3)
+        if do_alloc and not qop:
+            n_valid += self.alloc_phase(st)               # RFC 2069: while the one-time nonce is still unused
         # 1. the credential in several renderings / API functions
         for api in self.api_plan(rng, algo, qop):
             self.check(st, api=api)
             n_valid += 1
             if not qop:
                 break                                     # RFC 2069: the nonce is one-time
+        if do_alloc and qop:
+            self.alloc_phase(st)
         # 2. single-field mutations, each on a fresh count
         muts = list(MUTATIONS)
         rng.shuffle(muts)
@@ -687,6 +737,27 @@ class Session:
             self.check(st, timeout=rng.choice([1, 5, 90, 300, 4294967, 4294968]))
         self.emit("state", kind="state")
         return self
+
+    def alloc_phase(self, st):
+        """V6: credentials with a parameter that does not fit the 128-byte stack buffer (and controls that do fit),
+        presented while every malloc of the check fails (`failmalloc 1`) and while malloc works.  Returns the number
+        of checks that may have consumed the count."""
+        rng = self.rng
+        algo, qop = st["algo"], st["qop"]
+        kinds = ["none", "ext", "ext", "nonce"]
+        if qop:
+            kinds += ["cnonce", "cnonce", "cnonce", "cnonce128"]
+        if st["long_path"]:
+            kinds += ["uri", "uri"]
+        n = 0
+        for kd in (rng.sample(kinds, rng.choice([2, 3])) if qop else [rng.choice(kinds)]):
+            api = rng.choice(self.all_apis(algo, qop))
+            for f in (rng.choice([(1,), (1,), (0, 1), (1, 0)]) if qop else (1,)):
+                self.emit("failmalloc %d" % f, kind="failmalloc", on=bool(f))
+                self.check(st, api=api, alloc=kd, mutation="response-flip" if qop and rng.random() < 0.12 else None)
+                n += 1
+            self.emit("failmalloc 0", kind="failmalloc", on=False)
+        return n
 
     def reqinfo(self, method, target, strict):
         url, args = ref_target(target, strict)
@@ -741,7 +812,7 @@ class Session:
             txt = "%016x" % c
         return c, txt
 
-    def check(self, st, api="check3", mutation=None, nc_mode=None, timeout=None):
+    def check(self, st, api="check3", mutation=None, nc_mode=None, timeout=None, alloc=None):
         rng = self.rng
         cfg = st["cfg"]
         algo, qop = st["algo"], st["qop"]
@@ -752,9 +823,16 @@ class Session:
         c, nctxt = self.next_nc(st, nc_mode) if qop else (1, None)
         nctxt = nctxt.encode() if nctxt is not None else None
         cnonce = rnd_bytes(rng, TEXT, 1, 10) if qop else None
+        force = {}
+        if alloc in ("cnonce", "cnonce128") and qop:      # sent quoted with one quoted pair: length as sent = len + 1
+            cnonce = rnd_bytes(rng, SAFE, 1, 1) + rnd_bytes(rng, SAFE + b" ,;=", *((126, 126) if alloc == "cnonce128" else
+                                                                                   rng.choice([(127, 127), (128, 128), (150, 400), (129, 140)])))
+            force[b"cnonce"] = "esc1"
+        elif alloc == "nonce":                            # every byte escaped: 88 bytes as sent for MD5, 152 for the SHA-2 sizes
+            force[b"nonce"] = "escall"
         user, realm, pw = st["user"], st["realm"], st["pw"]
         sem = {}
-        notation = st["notation"]
+        notation = "ext" if alloc == "ext" else st["notation"]
         if notation == "plain":
             sem[b"username"] = user
         elif notation == "userhash":
@@ -762,7 +840,8 @@ class Session:
             sem[b"username"] = h if rng.random() < 0.7 else h.upper()
             sem[b"userhash"] = rng.choice([b"true", b"TRUE", b"True"])
         else:
-            sem[b"username*"] = rng.choice([b"UTF-8", b"utf-8", b"Utf-8"]) + b"'" + rng.choice([b"", b"en", b"de-CH"]) + b"'" \
+            lang = rng.choice([b"", b"en", b"de-CH"]) if alloc != "ext" else b"x-" + rnd_bytes(rng, SAFE, *rng.choice([(90, 125), (126, 300)]))
+            sem[b"username*"] = rng.choice([b"UTF-8", b"utf-8", b"Utf-8"]) + b"'" + lang + b"'" \
                 + enc_component(rng, user, b"'\"\\,;*", extra=0.2)
         sem[b"realm"] = realm
         sem[b"nonce"] = st["nonce"]
@@ -804,13 +883,13 @@ class Session:
         if conn_addr is not None:
             self.emit("conn " + hx(conn_addr), kind="conn", addr=conn_addr)
             st["addr"] = conn_addr
-        header, rawlen = render(rng, sem)
-        if rng.random() < 0.03 and mutation is None:
+        header, rawlen = render(rng, sem, force=force)
+        if rng.random() < 0.03 and mutation is None and alloc is None:
             header = None                                # no Authorization header at all
         act, callo = self.action(api, call, algo)
         self.emit(self.req_line(req_method, req_target, header, act), kind="check", sem=sem if header is not None else None,
                   rawlen=rawlen, call=callo, req=self.reqinfo(req_method, req_target, st["strict"]), expect=expect,
-                  mutation=mutation, api=api, nc=c)
+                  mutation=mutation, api=api, nc=c, alloc=alloc, algo=algo)
         if qop and nc_mode not in ("replay", "back", "edge63", "edge64", "edge65"):
             st["nc"] = max(st["nc"], c) if c < GUARD else st["nc"]
 
@@ -1199,9 +1278,14 @@ def judge_session(sess, hout):
     """oracle verdict for one session: (error text, index of the line) or None; also branch statistics"""
     stats = {}
     orc = None
+    failing = False
     for j, (meta, h) in enumerate(zip(sess.meta, hout)):
         k = meta["kind"]
-        if k == "daemon":
+        if k == "failmalloc":
+            failing = meta["on"]
+            if h != "ok":
+                return ("failmalloc: " + h, j), stats
+        elif k == "daemon":
             orc = Oracle(meta["cfg"])
             if h != "ok":
                 return ("daemon: " + h, j), stats
@@ -1236,17 +1320,35 @@ def judge_session(sess, hout):
                 ok, cons, why = False, None, "no header"
             else:
                 ok, cons, why = orc.valid(meta["sem"], meta["rawlen"], req, call)
-            key = "%s:%s:%s:%s" % (meta["api"], meta["mutation"] or "-", why, cls)
+            pre, post = heap_needs(meta["sem"], meta["rawlen"]) if meta["sem"] is not None else ([], [])
+            heap = failing and bool(pre or post)
+            key = "%s%s:%s:%s%s:%s" % ("failmalloc/" if failing else "", meta["api"], meta["mutation"] or "-", why,
+                                       "+heap" if heap else "", cls)
             stats[key] = stats.get(key, 0) + 1
+            if heap and pre:
+                cons = None                               # stopped before the nonce-table test
             if cons is not None:
                 orc.consume(meta["sem"], cons)
             good = "YES" if legacy else "OK"
+            err = "NO" if legacy else "ERROR"
+            if failing or meta.get("alloc"):
+                outcome = ("error" if cls == err else "other:" + cls) if (heap and ok) else \
+                          ("error-instead" if cls == err and not legacy else "stopped-earlier-or-no") if heap else \
+                          ("unchanged-accepted" if ok else "unchanged-refused") if failing else \
+                          ("accepted" if cls == good else "refused")
+                ak = "alloc|%s|%s|%s|%s|%s" % ("fail" if failing else "ctl", "+".join(pre + post) or "none", meta["api"], meta.get("algo"), outcome)
+                stats[ak] = stats.get(ak, 0) + 1
+            if ok and heap:
+                if cls != err:
+                    return ("malloc fails, the credential needs the heap for %s: answered %s, not %s [%s]"
+                            % ("+".join(pre + post), cls, err, meta["api"]), j), stats
+                continue
             if ok and cls != good:
                 return ("REFUSED (%s) a valid credential [%s]" % (cls, meta["api"]), j), stats
             if not ok and cls == good:
                 return ("ACCEPTED a credential that is not valid: %s [%s, mutation %s]" % (why, meta["api"], meta["mutation"]), j), stats
             if not ok and meta["expect"] and why != "no header":
-                allowed = set(meta["expect"]) | REASON_CLASSES.get(why, set())
+                allowed = set(meta["expect"]) | REASON_CLASSES.get(why, set()) | ({"ERROR"} if heap else set())
                 if legacy:
                     allowed = {LEGACY_OF.get(c, "NO") for c in allowed}
                 if cls not in allowed:
@@ -1379,16 +1481,21 @@ class Spec:
                          "Mhd.C12.replay_rejected", "Mhd.C12.no_buffer_overflow", "Mhd.C12.legacy_yes_iff",
                          "Mhd.C12.legacy_invalid_nonce_iff", "Mhd.C12.hash_is_implementation_md5",
                          "Mhd.C12.hash_is_implementation_sha256", "Mhd.C12.hash_is_implementation_sha512_256",
-                         "Mhd.C12.hex_roundtrip"]
+                         "Mhd.C12.hex_roundtrip", "Mhd.C12.alloc_success_is_model", "Mhd.C12.alloc_failure_cases",
+                         "Mhd.C12.alloc_failure_class", "Mhd.C12.alloc_failure_never_ok_unless", "Mhd.C12.alloc_failure_table",
+                         "Mhd.C12.alloc_failure_ok_iff", "Mhd.C12.alloc_failure_needs_heap_error",
+                         "Mhd.C12.alloc_irrelevant_when_small", "Mhd.C12.no_buffer_overflow_alloc"]
     trusted_base = ["Lean 4 kernel", "axioms: propext, Classical.choice, Quot.sound at most (audited per theorem)",
-                    "hand-written model lean/Mhd/Model/Dauth.lean, DauthArgs.lean (+ C13 Nonce, C14 Auth*, C16 hash specs) tied to "
+                    "hand-written model lean/Mhd/Model/Dauth.lean, DauthAlloc.lean, DauthArgs.lean (+ C13 Nonce, C14 Auth*, C16 hash specs) tied to "
                     "digestauth.c by this run's correspondence",
                     "tools/props/C12.py gen_dauth (sizes, limits, flag bits, method table, sockaddr geometry regenerated)",
-                    "harness/h_dauth.c (real daemon, virtual clock), gcc, ASan/UBSan",
+                    "harness/h_dauth.c (real daemon, virtual clock, -Wl,--wrap=malloc failing only inside the six check functions), gcc, ASan/UBSan",
                     "the RFC reference (hashlib) and set-based nonce registry in tools/props/C12.py"]
     assumptions = ["hash functions are used through their specifications (C16 links them to md5.c/sha256.c/sha512_256.c)",
                    "realm, username, password are C strings (no NUL); userdigest has the size of the selected algorithm (else MHD_PANIC, modelled)",
-                   "malloc failure in get_buffer_for_size and pool exhaustion in MHD_get_rq_dauth_params_ are not modelled",
+                   "pool exhaustion in MHD_get_rq_dauth_params_ is not modelled",
+                   "allocation failure is modelled as: every malloc of one check fails, or none (Mhd.Model.DauthAlloc); a malloc that "
+                   "succeeds once and fails later within the same check is not modelled",
                    "the request's GET arguments (headers_received) are an input of the model (their parsing is C02's subject); "
                    "the driver and the oracle recompute them from the request target and the harness prints what the handler saw",
                    "presentations are serialised by nnc_lock (C13/C18)"]
@@ -1398,7 +1505,7 @@ class Spec:
 
     def build(self, ctx):
         self.harness = vlib.build_daemon_harness(name="h_dauth", src="harness/h_dauth.c",
-                                                 exclude=("mhd_mono_clock.c", "digestauth.c"))
+                                                 exclude=("mhd_mono_clock.c", "digestauth.c"), ldextra=["-Wl,--wrap=malloc"])
         self.driver = vlib.driver_path("drv_dauth")
 
     def explore(self, ctx, boost):
